@@ -271,6 +271,7 @@ class C06(props.Prop):
         n_main = rec.main_nyield
         windows = [(a, b) for a, b in rec.rewrite_windows if b is not None]
         inside = list(rec.points_in_rewrite)
+        inside_set = set(inside)
         v.probes['rewrites'] += len(windows)
         v.probes['points_in_rewrites'] += len(inside)
         v.evaluations = rec.n_obs
@@ -288,11 +289,12 @@ class C06(props.Prop):
                     must.add((a + 1, 0))
                     must.add((b, 0))
                 must = [p for p in pts_in if p in must][:cap // 2]
-                rest = [p for p in pts_in if p not in set(must)]
+                must_set = set(must)
+                rest = [p for p in pts_in if p not in must_set]
                 pts_in = must + prng.sample(rest,
                                             min(len(rest), cap - len(must)))
             n_out = max(2, min(cap // 4, 10))
-            outside = [k for k in range(1, n_main + 1) if k not in set(inside)]
+            outside = [k for k in range(1, n_main + 1) if k not in inside_set]
             pts_out = [(k, prng.choice([0, 1]))
                        for k in prng.sample(outside, min(len(outside), n_out))]
             points = sorted(set(pts_in + pts_out))
@@ -315,7 +317,7 @@ class C06(props.Prop):
             v.evaluations += 1
             v.faults['sigint' if exc == 'KeyboardInterrupt' else
                      'memory_error'] += 1
-            in_rw = k in set(inside)
+            in_rw = k in inside_set
             if in_rw:
                 ntkeys.add((res.trace_digest, k))
                 v.faults['interrupt_inside_rewrite'] += 1
